@@ -279,6 +279,10 @@ def judge(case, out, m):
             if len(op.get('security', [])) > 1:
                 v.append(('violation', f'{where}: {len(op["security"])} entries in `security` — they are alternatives (any ONE suffices, OpenAPI 3.1 4.8.10), but every authentication fang around the handler must be satisfied: {[f["k"] for f in chain if f["k"] in AUTH]}'))
             if bool(got['security']) != any(f['k'] in AUTH for f in chain): v.append(('violation', f'{where}: security requirement {got["security"]} but authentication fangs around it: {[f["k"] for f in chain]}'))
+    # operationId MUST be unique among all operations described in the document (OpenAPI 3.1 4.8.10)
+    ids = [op.get('operationId') for t, ops in doc.get('paths', {}).items() for meth, op in ops.items() if isinstance(op, dict) and op.get('operationId') is not None]
+    dup = sorted({i for i in ids if ids.count(i) > 1})
+    if dup: v.append(('violation', f'operationId not unique among the operations of the document: {dup}'))
     # a request built from a documented operation reaches its handler
     for pr in out.get('probes', []):
         key = (pr['path'], pr['method'])
